@@ -21,7 +21,8 @@ from .corpus import CORPUS
 
 PROP = "C20"
 FEATURE_SETS = ("none", "full")
-GRAMMARS = ["g1", "g2", "p1", "p3", "c1", "c3", "o1", "o2", "o3", "a1", "a3", "k1", "k2", "k4", "v1", "h1", "kc", "hr", "hd", "f3", "f1", "x1", "x2", "x4", "k5", "k6", "cr", "c8"]
+TEXT_GRAMMARS = ("gd",)
+GRAMMARS = ["g1", "g2", "p1", "p3", "c1", "c3", "o1", "o2", "o3", "a1", "a3", "k1", "k2", "k4", "v1", "h1", "kc", "hr", "hd", "f3", "f1", "x1", "x2", "x4", "k5", "k6", "cr", "c8", "gd", "eg"]
 
 
 def norm_msg(ex, v):
@@ -253,7 +254,16 @@ def run_job(job, build):
     pa = tok.load_program(build, "none")
     pb = tok.load_program(build, "full")
     ea = tok.new_exec(pa, step_budget=800000)
-    eb = tok.new_exec(pb, step_budget=1200000)
+    if job["grammar"] in TEXT_GRAMMARS:
+        # the autocomplete build runs Doc::to_completion on group-help documents even when no completion was
+        # requested: executed from MIR here (first_line + monochrome) instead of the token layer's cut
+        from . import C14, C12
+        from mirsym import textmodels as TM
+        eb = tok.new_exec(pb, models=C14.comp_models(), step_budget=3000000)
+        TM.install_hooks(eb)
+        eb.debug_repr = C12.stable_repr
+    else:
+        eb = tok.new_exec(pb, step_budget=1200000)
     # one intern table and one axiom list for both executors
     eb.strtab, eb.strrev, eb.axioms = ea.strtab, ea.strrev, ea.axioms
     g = CORPUS[job["grammar"]]
@@ -318,7 +328,7 @@ def run_job(job, build):
                 m = eb.model()
                 cz = tok.Concretizer(eb, m)
                 argv = cz.argv(wa)
-                out["cex"].append({"kind": "feature-dependent", "grammar": job["grammar"], "shape": list(shape), "argv": argv, "env": {},
+                out["cex"].append({"kind": "feature-dependent", "grammar": job["grammar"], "shape": list(shape), "argv": argv, "env": cz.env(g.env_names),
                                    "predicted": [[ca, fmt_debug(cz, paya, pa.layout) if ca == "ok" else None],
                                                  [cb, fmt_debug(cz, payb, pb.layout) if cb == "ok" else None]], "expected": "equal", "why": bad})
             elif len(out["samples"]) < 2:
@@ -367,8 +377,8 @@ def run_job(job, build):
         fh[k] = fh.get(k, 0) + v
     out["fn_hits"] = fh
     if out["cex"]:
-        ra_ = Replayer(build["sets"]["none"]["replay"]).run([(c["grammar"], c["argv"], {}) for c in out["cex"]])
-        rb_ = Replayer(build["sets"]["full"]["replay"]).run([(c["grammar"], c["argv"], {}) for c in out["cex"]])
+        ra_ = Replayer(build["sets"]["none"]["replay"]).run([(c["grammar"], c["argv"], c.get("env") or {}) for c in out["cex"]])
+        rb_ = Replayer(build["sets"]["full"]["replay"]).run([(c["grammar"], c["argv"], c.get("env") or {}) for c in out["cex"]])
         for c, x, y in zip(out["cex"], ra_, rb_):
             c["native"] = [list(x), list(y)]
             c["reproduced"] = tuple(x) != tuple(y)
